@@ -54,38 +54,46 @@ Print Assumptions C04_defect_wrong_prefix.
 
 Theorem C04_defect_empty_input : forall t, ldec t [] = Err EReadLimit [].
 Proof. exact defect_empty_input. Qed.
+Print Assumptions C04_defect_empty_input.
 
 Theorem C04_defect_string_length : forall cw n rest, n < two64 -> n mod cw <> 0 ->
   ldec (TStr cw) (P_STR :: uint_enc n ++ rest) = Err EStrLen rest.
 Proof. exact defect_string_length. Qed.
+Print Assumptions C04_defect_string_length.
 
 Theorem C04_defect_bin_length : forall t w sg n rest, raw_kind t = Some (w, sg) -> n < two64 ->
   n mod N.of_nat w <> 0 ->
   ldec (TSeq CVec t) (P_BIN :: uint_enc n ++ rest) = Err EContLen rest.
 Proof. exact defect_bin_length. Qed.
+Print Assumptions C04_defect_bin_length.
 
 Theorem C04_defect_array_length : forall t ca m n rest, raw_kind t = None -> n < two64 -> n <> m ->
   ldec (TSeq (CArr ca m) t) (P_ARY :: uint_enc n ++ rest) = Err EContLen rest.
 Proof. exact defect_array_length. Qed.
+Print Assumptions C04_defect_array_length.
 
 Theorem C04_defect_lbuf_over_capacity : forall t ca cap sk n rest,
   raw_kind t = None -> n < two64 -> cap < n ->
   ldec (TSeq (CLBuf ca cap sk false) t) (P_ARY :: uint_enc n ++ rest) = Err EContLen rest.
 Proof. exact defect_lbuf_over_capacity. Qed.
+Print Assumptions C04_defect_lbuf_over_capacity.
 
 Theorem C04_defect_member_count : forall ts n rest, n < two64 -> n <> nlen ts ->
   ldec (TTuple KStruct ts) (P_STU :: uint_enc n ++ rest) = Err EMemberCount rest /\
   ldec (TTuple KTuple ts) (P_ARY :: uint_enc n ++ rest) = Err EContLen rest.
 Proof. exact defect_member_count. Qed.
+Print Assumptions C04_defect_member_count.
 
 Theorem C04_defect_variant_index : forall ts i rest, in_range I32 i = true ->
   (i < -1 \/ Z.of_N (nlen ts) <= i)%Z ->
   ldec (TVar ts) (P_VAR :: int32_enc i ++ rest) = Err EVariant rest.
 Proof. exact defect_variant_index. Qed.
+Print Assumptions C04_defect_variant_index.
 
 Theorem C04_defect_handle_type : forall pid tk tag tg rest, in_range tk tg = true -> tg <> tag ->
   ldec (THnd pid tk tag) (P_HND :: scalar_enc (SInt tk) tg ++ rest) = Err EHandleType rest.
 Proof. exact defect_handle_type. Qed.
+Print Assumptions C04_defect_handle_type.
 
 Theorem C04_defect_table_hash : forall hash es hh rest, hh < two64 -> hh <> hash ->
   ldec (TTab hash es) (P_TAB :: uint_enc hh ++ rest) = Err ETableHash rest.
